@@ -34,3 +34,28 @@ package core
 //@     invariant forall n int :: {has(merged.Entries, n)} has(merged.Entries, n) <==> (lastDef(tables, entry($i), n) >= 0 || $visited[n])
 //@     invariant forall n int :: {merged.Entries[n]} has(merged.Entries, n) ==> merged.Entries[n] == ($visited[n] ? table.Entries[n] : tables[lastDef(tables, entry($i), n)].Entries[n])
 //@     invariant merged.Trailer == entry(merged.Trailer)
+
+// Object streams: every size, count and offset read from the (attacker-controlled) header is validated before it
+// sizes an allocation or bounds a slice expression.
+//@ func (*ObjectStream) parseHeader results (err)
+//@   property C02
+//@   requires os.first >= 0 && os.n >= 0
+//@   callsite make(n) requires n <= len(os.decoded)
+//@   ensures counted: !err ==> len(os.offsets) == os.n
+//@   ensures frame: os.first == old(os.first) && os.n == old(os.n) && sameseq(os.decoded, old(os.decoded))
+//@   loop 0:
+//@     invariant 0 <= i && i <= os.n && len(os.offsets) == i
+//@     invariant os.first == old(os.first) && os.n == old(os.n) && sameseq(os.decoded, old(os.decoded))
+//@     decreases os.n - i
+
+//@ func (*ObjectStream) decode results (err)
+//@   property C02
+//@   requires os.first >= 0 && os.n >= 0
+//@   requires isnil(os.decoded) || len(os.offsets) == os.n
+//@   ensures frame: os.first == old(os.first) && os.n == old(os.n)
+//@   ensures decoded: !err ==> !isnil(os.decoded) && len(os.offsets) == os.n
+
+//@ func (*ObjectStream) GetObjectByIndex results (obj, num, err)
+//@   property C02
+//@   requires os.first >= 0 && os.n >= 0
+//@   requires isnil(os.decoded) || len(os.offsets) == os.n
